@@ -528,7 +528,46 @@ def w_poles(_):
     return acc.res()
 
 
+def w_partial(_):
+    """position() / position_with_ref() with the optional receiver location given completely, partly (latitude only,
+    longitude only) or not at all, for airborne pairs in one NL zone, airborne pairs straddling an NL boundary (no global
+    solution), surface pairs and mixed pairs: a value, None or RuntimeError - nothing else."""
+    acc = Acc()
+    b = C.TRANS[38]
+    aa = 0x4840D6
+
+    def air(lat, oe):
+        e = C.encode(Fr(lat).limit_denominator(10 ** 9), Fr(13, 2), oe, False)
+        return F.es(C.me_airborne(11, 0xC38, oe, e["yz"], e["xz"]), aa, 5, 17)
+
+    def sfc(lat, oe):
+        e = C.encode(Fr(lat).limit_denominator(10 ** 9), Fr(13, 2), oe, True)
+        return F.es(C.me_surface(7, 12, 1, 40, oe, e["yz"], e["xz"]), aa, 5, 17)
+    pairs = {"same_zone": (air(b - 0.05, 0), air(b - 0.049, 1)), "across_NL_boundary": (air(b - 0.012, 0), air(b + 0.012, 1)),
+             "surface": (sfc(50.66, 0), sfc(50.661, 1)), "mixed": (sfc(50.66, 0), air(50.661, 1)), "same_parity": (air(50.0, 0), air(50.01, 0))}
+    refs = [(), (50.7,), (50.7, None), (None, 6.4), (50.7, 6.4), (None, None), (0, 0), (0.0, None)]
+    for pname, (m0, m1) in pairs.items():
+        for t0, t1 in ((1, 2), (2, 1), (5, 5)):
+            for r_ in refs:
+                for a0, a1 in ((m0, m1), (m1, m0)):
+                    acc.n += 1
+                    r = call(pms.adsb.position, a0, a1, t0, t1, *r_)
+                    if r[0] == "exc" and r[1] != "RuntimeError":
+                        acc.bad("adsb.position:%s:%s_pair:partial_reference" % (r[1], pname),
+                                {"kind": "partial", "fn": "position", "args": [a0, a1, t0, t1] + list(r_)})
+        acc.out.add(("partial", pname))
+    for m in (pairs["same_zone"][0], pairs["surface"][0], pairs["surface"][1]):
+        for r_ in ((50.7, 6.4), (0, 0), (50, 6), (-0.0, 6.4)):
+            acc.n += 1
+            r = call(pms.adsb.position_with_ref, m, *r_)
+            if r[0] == "exc" and r[1] != "RuntimeError":
+                acc.bad("adsb.position_with_ref:%s:partial_reference" % r[1], {"kind": "partial", "fn": "position_with_ref", "args": [m] + list(r_)})
+    return acc.res()
+
+
 def w_any(t):
+    if t[0] == "w":
+        return w_partial(None)
     if t[0] == "r":
         return w_registers(t[1])
     if t[0] == "p":
@@ -551,7 +590,7 @@ def run(ctx):
     rng = random.Random(ctx.seed)
     pays = [0, (1 << 48) - 1, 0x555555555555, 0xAAAAAAAAAAAA, rng.getrandbits(48), rng.getrandbits(48),
             0x111111111111, 0x101010101010, 0x010101010101, 0x999999999999]     # hex digits all 0/1, all decimal (content sniffing)
-    tasks = [("d", None), ("p", None)] + [("r", r) for r in ("BDS10", "BDS17", "BDS20", "BDS30", "BDS40", "BDS44", "BDS45", "BDS50", "BDS60")]
+    tasks = [("d", None), ("p", None), ("w", None)] + [("r", r) for r in ("BDS10", "BDS17", "BDS20", "BDS30", "BDS40", "BDS44", "BDS45", "BDS50", "BDS60")]
     for df in range(32):
         tasks.append(("f", (0, [df], pays, ctx.thorough)))
     tasks += [("l", (df, tc)) for df in ((17, 18) if ctx.thorough else (17,)) for tc in range(32)]
@@ -574,6 +613,9 @@ def replay(case):
         return [("adsb.%s:%s:breakpoint_latitude" % (case["fn"], r[1] if r[0] == "exc" else "malformed_result"), case)] if bad else []
     if case["kind"] == "again":
         return stateless(case["msg"])
+    if case["kind"] == "partial":
+        r = call(getattr(pms.adsb, case["fn"]), *case["args"])
+        return [(s_, case) for s_, _ in w_partial(None)["viols"]] if (r[0] == "exc" and r[1] != "RuntimeError") else []
     if case["kind"] == "forms":
         out = []
         for part in range(4):
